@@ -6,7 +6,7 @@ cd "$wt" || exit 2
 export CARGO_TARGET_DIR=$wt/target CARGO_NET_OFFLINE=true
 out=$wt/SEED_OUT/confirm_main.log
 : > $out
-git checkout -q -- . 2>/dev/null; git clean -fdq -e SEED_OUT -e target 2>/dev/null
+git reset -q --hard 2>/dev/null; git clean -fdq -e SEED_OUT -e target 2>/dev/null
 git apply SEED_OUT/patch.diff && git apply SEED_OUT/demo.diff || { echo "APPLY FAILED" | tee -a $out; exit 2; }
 echo "== WITH patch: cargo test --offline -p $crate $* -- $filt" >> $out
 cargo test --offline -j 6 -p $crate "$@" -- $filt >> $out 2>&1; r1=$?
